@@ -427,8 +427,13 @@ class IntegratorLearner(BaseLearner):
                         # further.
                         self.propagate_removed(ival)
 
-                    elif force_split and not ival.children:
-                        # If it already has children it has already been split
+                    elif (
+                        force_split
+                        and not ival.children
+                        and ival not in self.priority_split
+                    ):
+                        # If it already has children it has already been split,
+                        # if it is already queued it will be split once.
                         assert ival in self.ivals
                         self.priority_split.append(ival)
 
